@@ -182,8 +182,13 @@ for m in M:
         d = d.replace("--- a/src", "--- a/src").replace("+++ b/src", "+++ b/src")
         os.makedirs(out, exist_ok=True)
         open(os.path.join(out, "patch.diff"), "w").write(d)
-        json.dump({"property": m["prop"], "what": m["what"], "origin": "hand-written mutant (tools/make_mutants.py)",
-                   "suite": tail}, open(os.path.join(out, "meta.json"), "w"), indent=1)
+        meta = {"property": m["prop"], "what": m["what"], "origin": "hand-written mutant (tools/make_mutants.py)", "suite": tail}
+        try:        # (notes added by hand - selftest: skip..., detected_by - survive a regeneration)
+            prev = json.load(open(os.path.join(out, "meta.json")))
+            meta.update({k: v for k, v in prev.items() if k in ("selftest", "detected_by", "detected_by_note")})
+        except (OSError, ValueError):
+            pass
+        json.dump(meta, open(os.path.join(out, "meta.json"), "w"), indent=1)
         print(f"{m['name']}: ok ({tail})")
     finally:
         shutil.rmtree(scratch, ignore_errors=True)
